@@ -225,6 +225,7 @@ def check_case(case, rec):
         # the lens has been used (trace above + pupil queries), is now edited through the public setters, and must behave
         # like a lens built from scratch with the edited prescription (same description reached by another route)
         lens.paraxial.EPL(); lens.paraxial.EPD(); lens.paraxial.f2()
+        lens.update_paraxial()
         sp2 = L.apply_edits(lens, spec, case['edits'])
         lens.trace_generic(Hx.copy(), Hy.copy(), Px.copy(), Py.copy(), wl)
         B = records(lens)
